@@ -16,6 +16,8 @@ pub enum Inner {
     Unbounded(Unbounded),
     Bounded(Bounded),
     Sim(SimTransport),
+    /// The repository's stream transport over a simulated byte pipe.
+    Tokio(Pin<Box<aldrin_core::tokio::TokioTransport<crate::io::BiEnd>>>),
 }
 
 #[derive(Debug, Clone, Copy, PartialEq, Eq)]
@@ -149,6 +151,7 @@ macro_rules! delegate {
             Inner::Unbounded($t) => $e.map_err(|_| SimTransportError::Eof),
             Inner::Bounded($t) => $e.map_err(|_| SimTransportError::Eof),
             Inner::Sim($t) => $e,
+            Inner::Tokio($t) => $e.map_err(|_| SimTransportError::Eof),
         }
     };
 }
